@@ -393,12 +393,15 @@ def _simple_roundtrip(o):
     if c in ("MeasurementData", "UserData", "LayoutData"):
         from fim.slivers import json_data as jd
         K = getattr(jd, c)
-        inp = {"none": None, "obj": {"k1": ["some", "list"], "k2": 5}, "text": '{"a": 1, "b": [2, 3]}', "emptyobj": {}, "list": [1, 2, "x"]}[v]
+        inp = {"none": None, "obj": {"k1": ["some", "list"], "k2": 5}, "text": '{"a": 1, "b": [2, 3]}', "emptyobj": {}, "list": [1, 2, "x"],
+               "zero": 0, "fzero": 0.0, "false": False, "emptylist": [], "emptystr": ""}[v]
         d = K(inp)
         text = d.json
         back = K(text)
-        want = {"none": {}, "obj": {"k1": ["some", "list"], "k2": 5}, "text": {"a": 1, "b": [2, 3]}, "emptyobj": {}, "list": [1, 2, "x"]}[v]
-        dec = ("emptyobj" if v == "none" else v) if back.data == want and d.data == want else "?"
+        want = {"none": {}, "obj": {"k1": ["some", "list"], "k2": 5}, "text": {"a": 1, "b": [2, 3]}, "emptyobj": {}, "list": [1, 2, "x"],
+                "zero": 0, "fzero": 0.0, "false": False, "emptylist": [], "emptystr": ""}[v]
+        same = back.data == want and d.data == want and type(back.data) is type(want) and type(d.data) is type(want)
+        dec = ("emptyobj" if v == "none" else v) if same else "?"
         return dec, False, back.json == text
     if c == "Gateway":
         from fim.slivers.gateway import Gateway
@@ -521,6 +524,12 @@ def run_codec_script(script):
                 except Exception:  # noqa
                     frozen = True
                 res = {"k": "entries", "v": {n: (str(e.state) if ok and frozen else "!" + str(e.state)) for n, e in back.list_details()}}
+            elif op == "MCopyEdit":
+                c = maint.copy()
+                c.add(o["add"], MaintenanceEntry(state=MaintenanceState.Maint))
+                if o["rem"] != "none" and o["rem"] in dict(c.list_details()):
+                    c.rem(o["rem"])
+                res = {"k": "entries", "v": {n: str(e.state) for n, e in c.list_details()}}
             elif op == "MCopy":
                 c = maint.copy()
                 c.add("zz-copy-only", MaintenanceEntry(state=MaintenanceState.Maint))     # the copy is open, the original untouched
